@@ -311,3 +311,7 @@ def is_ret_call(body, c):
 
 def queue_rules_rt(r, ctx, rt):
     queue_rules(r, ctx, rt, "map_queue::MapOperationQueue", "queue", "MapOperationQueue", r"MapOperationQueue::<S>")
+
+    with ctx.rule("C02.R10", "T1+T7", "every frame is addressed with the lane it belongs to (the sender's lane name is set per frame, for the lane of that frame)", floor=15) as r:
+        uplinks.frame_lane_name(r, ctx)
+
